@@ -7,7 +7,7 @@ C15 — types built from a JSON Schema (`utype/specs/json_schema/parser.py`, as 
                     combinations, `Schema` subclasses with their fields and options).
 * `parse res s`     `JsonSchemaParser(s)()`  — `parse_type / parse_array / parse_object / parse_field /
                     get_constraints / infer_type / get_attname / annotate`, branch for branch, with the
-                    declaration checks of `Rule` (`Constraints.validate_constraints`, rule.py:757-821) that make a
+                    declaration checks of `Rule` (`Constraints.validate_constraints`, rule.py:777-841) that make a
                     build raise `ConfigError`.  `none` = the build raises.
 * `conforms R T j`  the *contract* of a built type: what the JSON form `j` of a value returned by a
                     successful parse at `T` looks like (C01/C05's conclusion, JSON side).  It is the hypothesis
@@ -132,7 +132,7 @@ def Fld.deps : Fld → List String | .mk _ _ _ _ d => d
 /-- `Not(Any)`: accepts nothing -/
 def Ty.never : Ty := .logic .neg [.any]
 
-/-! ## `LogicalType.combine` (rule.py:236-268) -/
+/-! ## `LogicalType.combine` (rule.py:241-272) -/
 
 /-- `arg in __args` compares classes by identity: only builtin classes and `Rule` itself can repeat -/
 def sameObj : Ty → Ty → Bool
@@ -206,7 +206,7 @@ def isFalse : Json → Bool
   | .bool false => true
   | _ => false
 
-/-- `valid_bounds` (rule.py:608-716) on a numeric origin; `true` = accepted -/
+/-- `valid_bounds` (rule.py:610-725) on a numeric origin; `true` = accepted -/
 def checkBoundsCore (p : Prim) (gt ge lt le : Option Num) : Bool :=
   if gt.isSome && ge.isSome then false                       -- "gt/ge cannot assign together"
   else if lt.isSome && le.isSome then false                  -- "lt/le cannot assign together"
@@ -232,7 +232,7 @@ def checkBounds (p : Prim) (cons : Cons) : Bool :=
   checkBoundsCore p ((cons.lookup "gt").bind numOf) ((cons.lookup "ge").bind numOf)
     ((cons.lookup "lt").bind numOf) ((cons.lookup "le").bind numOf)
 
-/-- `valid_length` (rule.py:542-598); `true` = accepted -/
+/-- `valid_length` (rule.py:546-608); `true` = accepted -/
 def checkLengthCore (mn mx : Option Num) : Bool :=
   (match mn with
    | some a => isPyInt a && decide (0 ≤ a.mant)
@@ -247,7 +247,7 @@ def checkLengthCore (mn mx : Option Num) : Bool :=
 def checkLength (cons : Cons) : Bool :=
   checkLengthCore ((cons.lookup "min_length").bind numOf) ((cons.lookup "max_length").bind numOf)
 
-/-- `isinstance(const, origin)` or an exact-tolerance pair (rule.py:763-772, `TYPE_EXACT_TOLERANCE`) -/
+/-- `isinstance(const, origin)` or an exact-tolerance pair (rule.py:778-792, `TYPE_EXACT_TOLERANCE`) -/
 def constFits (p : Prim) (v : Json) : Bool :=
   match p, v with
   | .null, .null => true
@@ -273,7 +273,7 @@ def originOf : Ty → Option Prim
 `validate_constraints`; `none` = `ConfigError` -/
 def mkRule (t : Ty) (cons : Cons) : Option Ty :=
   match t with
-  | .any => some .anyRule                                     -- rule.py:1331-1337: constraints on Any are dropped with a warning
+  | .any => some .anyRule                                     -- rule.py:1355-1361: constraints on Any are dropped with a warning
   | _ =>
     if cons.isEmpty then some t
     else match cons.lookup "const" with
@@ -423,7 +423,7 @@ def typeOfValue : Json → Prim
 /-- `min(v, n)`; the existing value wins a tie -/
 def minJ (v : Json) (n : Num) : Json :=
   match v with
-  | .num m => if m.lt n then .num m else .num n
+  | .num m => if n.lt m then .num n else .num m
   | _ => .num n
 
 /-- `constraints['max_length'] = min(constraints.get('max_length', n), n)` (a dict has one entry per name) -/
@@ -444,11 +444,11 @@ def parseArray (kvs : Obj) (subs : Subs) (cons : Cons) : Option Ty :=
     | none => none
     | some args =>
       (match items with
-       | some (.bool false) =>
-         -- fix C15-8: no further items is also `max_length = min(max_length, len(prefixItems))`
-         annotate (.tup args .reject .any) true (capLength cons args.length)
        | some v =>
-         if truthy v then (match subOne subs "items" with
+         if isFalse v then
+           -- fix C15-8: no further items is also `max_length = min(max_length, len(prefixItems))`
+           annotate (.tup args .reject .any) true (capLength cons args.length)
+         else if truthy v then (match subOne subs "items" with
            | some t => annotate (.tup args .typed t) true cons
            | none => none)
          else annotate (.tup args .free .any) true cons
@@ -456,7 +456,8 @@ def parseArray (kvs : Obj) (subs : Subs) (cons : Cons) : Option Ty :=
   else
     match items with
     | some v =>
-      if truthy v then (match subOne subs "items" with
+      -- fix C15-9: `items: false` without prefixItems is an item type too (the one nothing meets)
+      if truthy v || isFalse v then (match subOne subs "items" with
         | some t => annotate (.arr [t]) true cons
         | none => none)
       else annotate (.arr []) false cons
@@ -626,8 +627,14 @@ def assembleWith (N : Names) (kvs : Obj) (subs : Subs) (ty : Option String) : Op
      | some [] => some t
      | some cs => some (combine .all (t :: cs)))
 
+def emptyEnum (kvs : Obj) : Bool :=
+  match lookup "enum" kvs with
+  | some (.arr []) => true
+  | _ => false
+
 /-- parse_type of a schema object whose members have been parsed -/
 def assemble (N : Names) (kvs : Obj) (subs : Subs) : Option Ty :=
+  if emptyEnum kvs then some Ty.never else      -- fix C15-9: an empty enum accepts nothing
   match lookup "type" kvs with
   | some (.arr ts) =>
     -- fix C15-6: the same schema with any one of the types
@@ -643,6 +650,8 @@ mutual
 def parse (N : Names) (s : Json) : Option Ty :=
   match s with
   | .obj kvs => assemble N kvs (parseKws N kvs)
+  | .bool true => some .any            -- fix C15-9: the boolean schemas
+  | .bool false => some Ty.never
   | _ => none
 termination_by structural s
 def parseKws (N : Names) (kws : List (String × Json)) : Subs :=
@@ -673,7 +682,7 @@ end
 /-! ## the contract of a built type on the JSON form of what it returns -/
 
 structure Rx where
-  full : String → String → Bool          -- `re.fullmatch(p, s)` (Constraints.regex, rule.py:996)
+  full : String → String → Bool          -- `re.fullmatch(p, s)` (Constraints.regex, rule.py:1008-1011)
   search : String → String → Bool        -- JSON Schema `pattern`
 
 def sizeOf? : Json → Option Nat
@@ -822,9 +831,9 @@ def isNum : Json → Bool
   | .num _ => true
   | _ => false
 
-/-- a size: a non-negative integer written as an integer -/
+/-- a size: a non-negative integer (however it is written: `3.0` is one, and `Rule` refuses it) -/
 def isSize : Json → Bool
-  | .num n => isPyInt n && decide (0 ≤ n.mant)
+  | .num n => n.isNonNegInt
   | _ => false
 
 def nonEmptyStr : Json → Bool
@@ -836,7 +845,7 @@ def nonEmptyNames : Json → Bool
   | _ => false
 
 /-- keywords whose value is not a schema -/
-def fragSimple (all : Obj) (k : String) (v : Json) : Bool :=
+def fragSimple (_all : Obj) (k : String) (v : Json) : Bool :=
   if k == "type" then (match v with
     | .str t => primitiveNames.contains t
     | .arr ts => !ts.isEmpty && wfType v
@@ -853,20 +862,12 @@ def fragSimple (all : Obj) (k : String) (v : Json) : Bool :=
     | .bool _ => true
     | _ => false)
   else if k == "enum" then (match v with
-    | .arr (_ :: _) => true
+    | .arr _ => true
     | _ => false)
   else if k == "const" then true
   else if k == "required" then nonEmptyNames v
   else if k == "dependentRequired" then (match v with
     | .obj deps => strDistinct (keys deps) && deps.all fun d => d.1 != "" && nonEmptyNames d.2
-    | _ => false)
-  else if k == "items" then
-    -- the boolean schema `false` only where the parser reads it: next to a non-empty prefixItems
-    isFalse v && (match lookup "prefixItems" all with
-      | some (.arr (_ :: _)) => true
-      | _ => false)
-  else if k == "additionalProperties" then (match v with
-    | .bool _ => true
     | _ => false)
   else false
 
@@ -874,6 +875,7 @@ mutual
 def inFragment (s : Json) : Bool :=
   match s with
   | .obj kvs => strDistinct (keys kvs) && fragKws kvs kvs
+  | .bool _ => true            -- the boolean schemas, wherever a schema is expected
   | _ => false
 termination_by structural s
 def fragKws (all : Obj) (kws : List (String × Json)) : Bool :=
@@ -881,7 +883,7 @@ def fragKws (all : Obj) (kws : List (String × Json)) : Bool :=
   | [] => true
   | (k, v) :: rest =>
     (fragmentKeywords.contains k &&
-     (if k == "items" || k == "additionalProperties" then fragSimple all k v || inFragment v
+     (if k == "items" || k == "additionalProperties" then inFragment v
       else if manyKeywords.contains k then (match v with
         | .arr (s :: ss) => inFragment s && fragList ss
         | _ => false)
@@ -902,9 +904,105 @@ def fragProps (ps : List (String × Json)) : Bool :=
 termination_by structural ps
 end
 
+/-! ### the fragment without the one restriction that hides a defect: property names may be empty.
+`inFragmentW s ∧ ¬KnownDefect.emptyName s → inFragment s` (`Lemmas/C15Wide.lean`); the theorems are stated over
+`inFragmentW` with `emptyName` as a listed known finding (`Field(alias='')` cannot name a member). -/
+
+def isStr : Json → Bool
+  | .str _ => true
+  | _ => false
+
+def uniqueStrs : Json → Bool
+  | .arr xs => allDistinct xs && xs.all isStr
+  | _ => false
+
+def fragSimpleW (all : Obj) (k : String) (v : Json) : Bool :=
+  if k == "required" then uniqueStrs v
+  else if k == "dependentRequired" then (match v with
+    | .obj deps => strDistinct (keys deps) && deps.all fun d => uniqueStrs d.2
+    | _ => false)
+  else fragSimple all k v
+
+mutual
+def inFragmentW (s : Json) : Bool :=
+  match s with
+  | .obj kvs => strDistinct (keys kvs) && fragKwsW kvs kvs
+  | .bool _ => true
+  | _ => false
+termination_by structural s
+def fragKwsW (all : Obj) (kws : List (String × Json)) : Bool :=
+  match kws with
+  | [] => true
+  | (k, v) :: rest =>
+    (fragmentKeywords.contains k &&
+     (if k == "items" || k == "additionalProperties" then inFragmentW v
+      else if manyKeywords.contains k then (match v with
+        | .arr (s :: ss) => inFragmentW s && fragListW ss
+        | _ => false)
+      else if k == "properties" then (match v with
+        | .obj ps => strDistinct (keys ps) && fragPropsW ps
+        | _ => false)
+      else fragSimpleW all k v)) && fragKwsW all rest
+termination_by structural kws
+def fragListW (ss : List Json) : Bool :=
+  match ss with
+  | [] => true
+  | s :: rest => inFragmentW s && fragListW rest
+termination_by structural ss
+def fragPropsW (ps : List (String × Json)) : Bool :=
+  match ps with
+  | [] => true
+  | (_, s) :: rest => inFragmentW s && fragPropsW rest
+termination_by structural ps
+end
+
 /-! ## known departures -/
 
 namespace KnownDefect
+
+/-- a list of names with an empty one -/
+def hasEmptyStr : Json → Bool
+  | .arr xs => xs.any fun x => !nonEmptyStr x
+  | _ => false
+
+mutual
+/-- `empty-property-name`: a property (declared, required or mentioned by dependentRequired) named `""`:
+`Field(alias='')` is no alias, so the field is named after its attribute (`field_`) and the member `""` is an
+additional one — not converted, and never found when it is required -/
+def emptyName (s : Json) : Bool :=
+  match s with
+  | .obj kvs => emptyNameKws kvs
+  | _ => false
+termination_by structural s
+def emptyNameKws (kws : List (String × Json)) : Bool :=
+  match kws with
+  | [] => false
+  | (k, v) :: rest =>
+    (if k == "properties" then (match v with
+        | .obj ps => (keys ps).contains "" || emptyNameProps ps
+        | _ => false)
+      else if k == "required" then hasEmptyStr v
+      else if k == "dependentRequired" then (match v with
+        | .obj deps => (keys deps).contains "" || deps.any fun d => hasEmptyStr d.2
+        | _ => false)
+      else if oneKeywords.contains k then emptyName v
+      else if manyKeywords.contains k then (match v with
+        | .arr ss => emptyNameList ss
+        | _ => false)
+      else false) || emptyNameKws rest
+termination_by structural kws
+def emptyNameList (ss : List Json) : Bool :=
+  match ss with
+  | [] => false
+  | s :: rest => emptyName s || emptyNameList rest
+termination_by structural ss
+def emptyNameProps (ps : List (String × Json)) : Bool :=
+  match ps with
+  | [] => false
+  | (_, s) :: rest => emptyName s || emptyNameProps rest
+termination_by structural ps
+end
+
 
 mutual
 /-- `oneof-branch-stricter`: at every `oneOf` the instance meets, at most one branch schema validates it.
@@ -962,92 +1060,79 @@ end
 
 def oneOfOverlap (C : Ctx) (s j : Json) : Bool := !oneOfAtMost C s j
 
-def numAt (kvs : Obj) (k : String) : Option Num := (lookup k kvs).bind numOf
+/-! `degenerate-constraints`, exactly: some `Rule` the parser declares for a schema object it reaches is refused by
+`Rule`'s declaration checks (`checkBoundsCore`, `checkLengthCore`, `constFits`: rule.py:546-725, 777-792).
+`C15_builds_iff` proves that this — and nothing else — makes a build of a fragment schema raise. -/
 
-/-- the lower / upper numeric bounds a schema object states -/
-def lows (kvs : Obj) : List Num := [numAt kvs "minimum", numAt kvs "exclusiveMinimum"].filterMap id
-def highs (kvs : Obj) : List Num := [numAt kvs "maximum", numAt kvs "exclusiveMaximum"].filterMap id
+/-- a member, whatever it builds to -/
+def stubOf (k : String) (v : Json) : Sub :=
+  if oneKeywords.contains k then .one (some .any)
+  else if manyKeywords.contains k then (match v with
+    | .arr ss => .many (ss.map fun _ => some .any)
+    | _ => .skip)
+  else if k == "properties" then (match v with
+    | .obj ps => .props (ps.map fun p => (p.1, some .any))
+    | _ => .skip)
+  else .skip
 
-/-- numeric bounds `Rule` refuses (rule.py:608-716): an inclusive and an exclusive bound on one side; a lower bound
-not below an upper one (equal inclusive bounds included), one written as int and one as float, two integer bounds with
-at most one integer between them; a float bound on a Decimal -/
-def boundsBad (kvs : Obj) : Bool :=
-  ((numAt kvs "minimum").isSome && (numAt kvs "exclusiveMinimum").isSome) ||
-  ((numAt kvs "maximum").isSome && (numAt kvs "exclusiveMaximum").isSome) ||
-  ((lows kvs).any fun a => (highs kvs).any fun b =>
-    !a.lt b || isPyInt a != isPyInt b || (isPyInt a && decide (b.mant - a.mant < 2))) ||
-  ((lookupStr "format" kvs).bind typeMap == some Prim.decimal && (lows kvs ++ highs kvs).any fun a => !isPyInt a)
+def stubKws : List (String × Json) → Subs
+  | [] => []
+  | (k, v) :: rest => (k, stubOf k v) :: stubKws rest
 
-/-- an upper size bound of 0, or below the lower one (rule.py:542-598) -/
-def sizePairBad (kvs : Obj) (mx mn : String) : Bool :=
-  match numAt kvs mx with
-  | some b => b.mant == 0 || (match numAt kvs mn with
-    | some a => decide (b.mant < a.mant)
-    | none => false)
+def noNames : Names := ⟨fun _ => true, [], fun _ => ""⟩
+
+/-- the Rules declared for this schema object, built for primitive type `ty`, are accepted (its members stubbed:
+they do not matter to the checks) -/
+def declares (kvs : Obj) (ty : Option String) : Bool := (baseType noNames kvs (stubKws kvs) ty).isSome
+
+/-- the primitive types a schema object is built for: the declared one(s), else none (then inferred) -/
+def typesBuilt (kvs : Obj) : List (Option String) :=
+  match lookup "type" kvs with
+  | some (.arr ts) => (ts.filterMap strOf).map some
+  | some (.str t) => [if t == "" then none else some t]
+  | _ => [none]
+
+def builtAs (kvs : Obj) (t : String) : Bool :=
+  (typesBuilt kvs).any fun ty => (ty <|> inferType kvs) == some t
+
+def prefixTruthy (kvs : Obj) : Bool :=
+  match lookup "prefixItems" kvs with
+  | some v => truthy v
   | none => false
 
-def sizesBad (kvs : Obj) : Bool :=
-  sizePairBad kvs "maxLength" "minLength" || sizePairBad kvs "maxItems" "minItems" ||
-  sizePairBad kvs "maxProperties" "minProperties"
+/-- the parser builds a type for this member (of a schema object that is not cut short by an empty enum) -/
+def reached (all : Obj) (k : String) (v : Json) : Bool :=
+  if k == "prefixItems" then builtAs all "array" && truthy v
+  else if k == "items" then builtAs all "array" &&
+    (if prefixTruthy all then !isFalse v && truthy v else truthy v || isFalse v)
+  else if k == "properties" then builtAs all "object" && truthy v
+  else if k == "additionalProperties" then builtAs all "object" && (match v with
+    | .obj _ => true
+    | _ => false)
+  else if k == "anyOf" || k == "oneOf" || k == "allOf" then truthy v
+  else false
 
-/-- no items after the prefix (`items: false`) next to a size bound of its own: the cap the parser adds then has to
-agree with `minItems` / `maxItems` (the build raises when more are required than the prefix has; the other
-combinations are listed here too, to keep the predicate one line) -/
-def closedTupleBad (kvs : Obj) : Bool :=
-  match lookup "items" kvs, lookup "prefixItems" kvs with
-  | some (.bool false), some (.arr _) => hasKey "minItems" kvs || hasKey "maxItems" kvs
-  | _, _ => false
-
-/-- a const that is not a value of primitive type `t`, or whose class is a tuple or a format class -/
-def constMisfit (kvs : Obj) (v : Json) (t : String) : Bool :=
-  t != "null" && (!typeIs t v ||
-    (match (lookupStr "format" kvs).bind typeMap with
-     | some p => primitiveOf p == t && (match p with
-       | .sfmt _ => true
-       | .tuple => true
-       | .decimal => !(match v with
-         | .num n => isPyInt n
-         | _ => false)
-       | _ => false)
-     | none => false) ||
-    (t == "array" && (match lookup "prefixItems" kvs with
-      | some p => truthy p
-      | none => false)))
-
-def constBad (kvs : Obj) : Bool :=
-  match lookup "const" kvs with
-  | some v =>
-    (match lookup "type" kvs with
-     | some (.arr ts) => (ts.filterMap strOf).any (constMisfit kvs v)
-     | some (.str t) => constMisfit kvs v t
-     | _ => (match inferType kvs with
-       | some t => constMisfit kvs v t
-       | none => false))
-  | none => false
-
-/-- `degenerate-constraints`: constraint sets `Rule` refuses to declare (rule.py:542-716, 757-772), so the
-build raises `ConfigError`, stated on one schema object in the schema's own words -/
-def degenerateHere (kvs : Obj) : Bool :=
-  boundsBad kvs || sizesBad kvs || closedTupleBad kvs || constBad kvs
+def refusedHere (kvs : Obj) : Bool := (typesBuilt kvs).any fun ty => !declares kvs ty
 
 mutual
 def degenerate (s : Json) : Bool :=
   match s with
-  | .obj kvs => degenerateHere kvs || degenerateKws kvs
+  | .obj kvs => !emptyEnum kvs && (refusedHere kvs || degenerateKws kvs kvs)
   | _ => false
 termination_by structural s
-def degenerateKws (kws : List (String × Json)) : Bool :=
+def degenerateKws (all : Obj) (kws : List (String × Json)) : Bool :=
   match kws with
   | [] => false
   | (k, v) :: rest =>
-    (if oneKeywords.contains k then degenerate v
-     else if manyKeywords.contains k then (match v with
-       | .arr ss => degenerateList ss
-       | _ => false)
-     else if k == "properties" then (match v with
-       | .obj ps => degenerateProps ps
-       | _ => false)
-     else false) || degenerateKws rest
+    (reached all k v &&
+      (if oneKeywords.contains k then degenerate v
+       else if manyKeywords.contains k then (match v with
+         | .arr ss => degenerateList ss
+         | _ => false)
+       else if k == "properties" then (match v with
+         | .obj ps => degenerateProps ps
+         | _ => false)
+       else false)) || degenerateKws all rest
 termination_by structural kws
 def degenerateList (ss : List Json) : Bool :=
   match ss with
@@ -1060,7 +1145,6 @@ def degenerateProps (ps : List (String × Json)) : Bool :=
   | (_, s) :: rest => degenerate s || degenerateProps rest
 termination_by structural ps
 end
-
 
 /-! ### where the run-time is known to break the contract `conforms` (predicates on the built type) -/
 
@@ -1103,13 +1187,64 @@ def stripRule : Ty → Ty
   | .rule b _ => stripRule b
   | t => t
 
+mutual
+/-- the class of one listed value, with the classes of its items / members -/
+def tyOfJson (v : Json) : Ty :=
+  match v with
+  | .null => .prim .null
+  | .bool _ => .prim .bool
+  | .num n => if isPyInt n then .prim .int else .prim .float
+  | .str _ => .prim .str
+  | .arr xs => .tup (tysOfJson xs) .reject .any
+  | .obj o => .data (fldsOfJson o) .reject .any none none
+termination_by structural v
+def tysOfJson (xs : List Json) : List Ty :=
+  match xs with
+  | [] => []
+  | x :: rest => tyOfJson x :: tysOfJson rest
+termination_by structural xs
+def fldsOfJson (o : List (String × Json)) : List Fld :=
+  match o with
+  | [] => []
+  | (n, x) :: rest => .mk n n (tyOfJson x) true [] :: fldsOfJson rest
+termination_by structural o
+end
+
+/-- the values a `const` / `enum` rule lists -/
+def listedValues (cons : Cons) : Option (List Json) :=
+  match cons.lookup "const" with
+  | some v => some [v]
+  | none => (match cons.lookup "enum" with
+    | some (.arr vs) => some vs
+    | _ => none)
+
+def isContainer : Ty → Bool
+  | .prim .list => true
+  | .prim .tuple => true
+  | .prim .dict => true
+  | .arr _ => true
+  | .tup _ _ _ => true
+  | .map _ => true
+  | .data _ _ _ _ _ => true
+  | _ => false
+
+/-- what a conjunct says about the places inside a value: a `const` / `enum` rule over a container says what its
+listed values hold there, any other rule what its base says -/
+def shapeOf : Ty → Ty
+  | .rule b cons =>
+    if isContainer (stripRule b) then (match listedValues cons with
+      | some vs => .logic .any (tysOfJson vs)
+      | none => shapeOf b)
+    else shapeOf b
+  | t => t
+
 /-- two conjuncts of one `&` that can hold values of different JSON kinds at the same place (the place is followed
-through items, values and members of the same name — a member that is a field of one class and an additional
+through items, values, members of the same name and the values a `const` / `enum` over a container lists — a member that is a field of one class and an additional
 member of the other is typed by the field there and by the additional type here; `fuel` bounds the descent) -/
 def mixedPair : Nat → Ty → Ty → Bool
   | 0, _, _ => false
   | fuel + 1, a, b =>
-    match stripRule a, stripRule b with
+    match shapeOf a, shapeOf b with
     | .arr xs, .arr ys => xs.any fun x => ys.any fun y => mixedPair fuel x y
     | .arr xs, .tup ys _ addTy => xs.any fun x => (ys.any fun y => mixedPair fuel x y) || mixedPair fuel x addTy
     | .tup xs _ addTy, .arr ys => ys.any fun y => (xs.any fun x => mixedPair fuel x y) || mixedPair fuel addTy y
@@ -1345,7 +1480,7 @@ def memberNameClash (N : Names) (t : Ty) (input : Json) : Bool :=
   hasMemberIn (N.reserved ++ renamedAttrs t) input
 
 mutual
-/-- `max-properties-zero`: `Options(max_params=0)` is read as "no limit" (base.py:361 `if options.max_params:`) -/
+/-- `max-properties-zero`: `Options(max_params=0)` is read as "no limit" (base.py:375 `if options.max_params:`) -/
 def maxPropsZero (t : Ty) : Bool :=
   match t with
   | .rule b _ => maxPropsZero b
